@@ -76,7 +76,7 @@ func tokenTest(fn *ssa.Function, typName, field string) (iff *ssa.If, rejectIdx 
 }
 
 func runC11(c *Ctx) {
-	c.rule("C11-R7", "PAIR: every Lock/RLock in pkg/server (limiter, auth trackers) is released on every path to a return: a request can never leave the limiter's mutex held and so block every later request")
+	c.rule("C11-R7", "PAIR: every Lock/RLock in pkg/server (limiter, auth trackers) is released on every path to a return: a request can never leave the limiter's mutex held and so block every later request; REACQ: no method calls, while it holds its receiver's mutex, a method of the same receiver that acquires that mutex again (sync mutexes are not re-entrant; a second RLock blocks once a writer waits)")
 	c.Sites["C11-R7#acquire-sites"] = lockReleaseAudit(c, "C11-R7", []string{serverPkg})
 	c.floor("C11-R7", 6)
 	rl := c.mustFn("C11-R1", serverPkg, "RateLimitMiddleware")
